@@ -63,7 +63,9 @@ where
         where
             A: serde::de::SeqAccess<'d>,
         {
-            let mut array = Vec::with_capacity(seq.size_hint().unwrap_or_default());
+            // The size hint comes from the input, do not trust it for more than a small
+            // pre-allocation.
+            let mut array = Vec::with_capacity(seq.size_hint().unwrap_or_default().min(1024));
             while let Some(elem) = seq.next_element::<PossiblyUnknown<T>>()? {
                 if let PossiblyUnknown::Some(elem) = elem {
                     array.push(elem)
